@@ -213,3 +213,115 @@ Section Proofs.
              rewrite (Hnone m) in Hm; [discriminate|]. apply in_or_app. right. left. reflexivity.
   Qed.
 End Proofs.
+
+(** ** Part (ii): the executable wildmatch against a declarative reading of the token language *)
+
+Lemma noslash_nil : noslash [].
+Proof. intros x []. Qed.
+
+Lemma noslash_cons x a : x <> SLASH -> noslash a -> noslash (x :: a).
+Proof. intros Hx Ha y [<-|Hy]; auto. Qed.
+
+Lemma neqb_slash x : negb (x =? SLASH) = true <-> x <> SLASH.
+Proof. rewrite negb_true_iff, N.eqb_neq. reflexivity. Qed.
+
+(** One star: some slash-free prefix, then the rest. *)
+Lemma star_loop_spec (f : bytes -> bool) (P : bytes -> Prop) :
+  (forall t, f t = true <-> P t) ->
+  forall t,
+    (fix star (t : bytes) : bool :=
+       f t || match t with x :: t' => negb (x =? SLASH) && star t' | [] => false end) t = true
+    <-> exists a b, t = a ++ b /\ noslash a /\ P b.
+Proof.
+  intros Hf. induction t as [|x t IH].
+  - rewrite orb_false_r, Hf. split.
+    + intros H. exists [], []. split; [reflexivity|]. split; [apply noslash_nil|exact H].
+    + intros (a & b & E & _ & Hb). destruct a; [|discriminate]. cbn in E. subst b. exact Hb.
+  - rewrite orb_true_iff, andb_true_iff, Hf, neqb_slash, IH. split.
+    + intros [H|[Hx (a & b & -> & Ha & Hb)]].
+      * exists [], (x :: t). split; [reflexivity|]. split; [apply noslash_nil|exact H].
+      * exists (x :: a), b. split; [reflexivity|]. split; [apply noslash_cons; assumption|exact Hb].
+    + intros (a & b & E & Ha & Hb). destruct a as [|y a].
+      * cbn in E. subst b. left. exact Hb.
+      * cbn in E. injection E as -> ->. right. split; [apply Ha; left; reflexivity|].
+        exists a, b. split; [reflexivity|]. split; [|exact Hb].
+        intros z Hz. apply Ha. right. exact Hz.
+Qed.
+
+Lemma anyseq_loop_spec (f : bytes -> bool) (P : bytes -> Prop) :
+  (forall t, f t = true <-> P t) ->
+  forall t,
+    (fix anyseq (t : bytes) : bool :=
+       f t || match t with _ :: t' => anyseq t' | [] => false end) t = true
+    <-> exists a b, t = a ++ b /\ P b.
+Proof.
+  intros Hf. induction t as [|x t IH].
+  - rewrite orb_false_r, Hf. split.
+    + intros H. exists [], []. auto.
+    + intros (a & b & E & Hb). destruct a; [|discriminate]. cbn in E. subst b. exact Hb.
+  - rewrite orb_true_iff, Hf, IH. split.
+    + intros [H|(a & b & -> & Hb)].
+      * exists [], (x :: t). auto.
+      * exists (x :: a), b. auto.
+    + intros (a & b & E & Hb). destruct a as [|y a].
+      * cbn in E. subst b. left. exact Hb.
+      * cbn in E. injection E as -> ->. right. exists a, b. auto.
+Qed.
+
+(** The executable matcher decides exactly the declarative relation. *)
+Lemma wm_spec_len : forall n ts, (length ts <= n)%nat -> forall t, wm ts t = true <-> Matches ts t.
+Proof.
+  induction n as [|n IHn]; intros ts Hlen t.
+  - destruct ts; [|cbn in Hlen; lia]. cbn.
+    destruct t; split; try discriminate; try constructor. intros H; inversion H.
+  - destruct ts as [|tok r].
+    { cbn. destruct t; split; try discriminate; try constructor. intros H; inversion H. }
+    cbn [length] in Hlen.
+    assert (IH : forall t0, wm r t0 = true <-> Matches r t0) by (apply IHn; lia).
+    destruct tok as [c| | | | |neg items|].
+    + (* TLit *)
+      cbn [wm]. destruct t as [|x t'].
+      * split; [discriminate|intros H; inversion H].
+      * rewrite andb_true_iff, N.eqb_eq, IH. split.
+        -- intros [-> H]. constructor. exact H.
+        -- intros H. inversion H; subst. auto.
+    + (* TAny *)
+      cbn [wm]. destruct t as [|x t'].
+      * split; [discriminate|intros H; inversion H].
+      * rewrite andb_true_iff, neqb_slash, IH. split.
+        -- intros [Hx H]. constructor; assumption.
+        -- intros H. inversion H; subst. auto.
+    + (* TStar *)
+      cbn [wm]. rewrite (star_loop_spec (wm r) (Matches r) IH). split.
+      * intros (a & b & -> & Ha & Hb). constructor; assumption.
+      * intros H. inversion H; subst. eauto.
+    + (* TStars *)
+      cbn [wm]. rewrite (star_loop_spec (wm r) (Matches r) IH). split.
+      * intros (a & b & -> & Ha & Hb). constructor; assumption.
+      * intros H. inversion H; subst. eauto.
+    + (* TGlob *)
+      cbn [wm]. destruct r as [|x r'].
+      * split; [intros _; constructor|reflexivity].
+      * assert (IH' : forall t0, wm r' t0 = true <-> Matches r' t0).
+        { apply IHn. cbn [length] in Hlen. lia. }
+        rewrite orb_true_iff, IH'.
+        rewrite (anyseq_loop_spec (wm (x :: r')) (Matches (x :: r')) IH). split.
+        -- intros [H|(a & b & -> & Hb)].
+           ++ apply M_glob_zero. exact H.
+           ++ apply M_glob_any. exact Hb.
+        -- intros H. inversion H; subst; eauto.
+    + (* TClass *)
+      cbn [wm]. destruct t as [|x t'].
+      * split; [discriminate|intros H; inversion H].
+      * rewrite !andb_true_iff, neqb_slash, negb_true_iff, IH. split.
+        -- intros [[Hx Hc] H]. constructor; try assumption.
+           destruct (in_class items x), neg; cbn in *; congruence.
+        -- intros H. inversion H; subst. repeat split; try assumption.
+           match goal with Hc : in_class _ _ = _ |- _ => rewrite Hc end.
+           destruct neg; reflexivity.
+    + (* TBad *)
+      cbn [wm]. split; [discriminate|intros H; inversion H].
+Qed.
+
+Theorem wm_spec ts t : wm ts t = true <-> Matches ts t.
+Proof. apply (wm_spec_len (length ts)). lia. Qed.
